@@ -17,8 +17,9 @@ combination of sizes:
   fits no message — and only for such a report (`Justified`); the event reports are the status
   reports of the invalid paths and then the events of the buffer in the cursor's range that pass
   the event filters, each once, in buffer order (the buffer's event numbers ascend); every message
-  is at most `cap` long; MoreChunkedMessages is set on all messages but the last; nothing at all is
-  sent only when empty reports are suppressed and nothing was selected;
+  is at most `cap` long; no attribute report follows an event report (`attrs_before_events`);
+  MoreChunkedMessages is set on all messages but the last; nothing at all is sent only when empty
+  reports are suppressed and nothing was selected;
 * `respond_never_loops`, `respond_total` — the responder always ends: with an answer when the error
   statuses and the event reports fit an empty message, otherwise with `NoSpace` / `ResourceExhausted`;
   never with the endless chunk sequence of the unrepaired code (`evLoop_eq_sweep`: the rescan of the
@@ -54,6 +55,8 @@ structure Good (c : Cfg) (r : Req) (cs : List ChunkOut) : Prop where
   events : cs.flatMap (·.events) = eventsOf r
   /-- fits the transport's maximum size -/
   bounded : ∀ ch ∈ cs, ch.size ≤ c.cap
+  /-- no attribute report follows an event report -/
+  order : Ordered cs
   /-- only the last message ends the interaction (no message: an empty report that is not to be sent) -/
   lastEnds : (cs = [] ∧ r.sendIfEmpty = false) ∨
     ∃ front last, cs = front ++ [last] ∧ last.more = false ∧ ∀ ch ∈ front, ch.more = true
@@ -101,13 +104,26 @@ theorem respond_shape {c : Cfg} {r : Req} {cs : List ChunkOut} (hw : c.WF) (h : 
         left
         refine ⟨by rw [← h, hd]; rfl, hsup.1, by simp [ESt.flatAt, hd, ha], by simp [ESt.flatEv, hd, he]⟩
 
+/-- **attribute reports come first**: in the sequence of messages no attribute report follows an
+event report -/
+theorem attrs_before_events {c : Cfg} {r : Req} {cs : List ChunkOut} (hw : c.WF)
+    (h : respond c r = .ok cs) : Ordered cs := by
+  obtain ⟨s1, s2, h1, h2, _, _, _, hcs⟩ := respond_shape hw h
+  have o2 : OInv s2 := eventSection_ordered (attrSection_ordered hw h1) h2
+  rcases hcs with ⟨rfl, _⟩ | rfl
+  · trivial
+  · unfold OInv ESt.all at o2
+    simp only [List.reverse_cons]
+    exact ordered_last _ _ _ o2 rfl
+
 /-- **C14 for every answer**: whatever the sizes, an answer of the responder is `Good` -/
 theorem respond_good {c : Cfg} {r : Req} {cs : List ChunkOut} (hw : c.WF) (ha : Ascending r)
     (h : respond c r = .ok cs) : Good c r cs := by
+  have hord := attrs_before_events hw h
   obtain ⟨s1, s2, _, _, hf, ⟨outs, hj, hfa⟩, hfe, hcs⟩ := respond_shape hw h
   rcases hcs with ⟨rfl, hsup, ha0, he0⟩ | rfl
-  · refine ⟨⟨outs, hj, by rw [← hfa, ha0]; rfl⟩, by rw [← evOut_eq_reports ha, ← hfe, he0]; rfl, by simp, .inl ⟨rfl, hsup⟩⟩
-  · refine ⟨⟨outs, hj, ?_⟩, ?_, ?_, ?_⟩
+  · refine ⟨⟨outs, hj, by rw [← hfa, ha0]; rfl⟩, by rw [← evOut_eq_reports ha, ← hfe, he0]; rfl, by simp, hord, .inl ⟨rfl, hsup⟩⟩
+  · refine ⟨⟨outs, hj, ?_⟩, ?_, ?_, hord, ?_⟩
     · rw [← hfa]; simp [ESt.flatAt, List.flatMap_append]
     · rw [← evOut_eq_reports ha, ← hfe]; simp [ESt.flatEv, List.flatMap_append]
     · intro ch hch
